@@ -7,6 +7,9 @@ mod c02;
 mod c03;
 mod c04;
 mod c05;
+mod c06;
+mod guard;
+mod c10;
 mod c16;
 
 use engine::{run_prop, Opts};
@@ -25,6 +28,8 @@ fn main() {
         "C03" => run_prop(c03::C03, &opts),
         "C04" => run_prop(c04::C04, &opts),
         "C05" => run_prop(c05::C05, &opts),
+        "C06" => run_prop(c06::C06, &opts),
+        "C10" => run_prop(c10::C10, &opts),
         "C16" => run_prop(c16::C16, &opts),
         o => {
             eprintln!("unknown property {o}");
